@@ -26,8 +26,6 @@ package internal
 
 // ---- C10: the buffer handed to NewCryptoKey is wiped on every return ----
 
-// revoked is read and written with sync/atomic
-//@ volatile (CryptoKey).revoked
 
 //@ func NewCryptoKey
 //@   facet C10, C02
@@ -64,3 +62,20 @@ package internal
 //@   requires k != nil
 //@   modifies live(k.secret)
 //@   ghost ensures k.secret != nil ==> !live(k.secret)
+
+// ---- C04 / C05: validity tests are exactly the documented ones ----
+
+//@ func IsKeyExpired
+//@   facet C04
+//@   ensures [C04:expired-iff-older-than-lifetime] result == (now() > created * 1000000000 + int(expireAfter))
+
+//@ func (*CryptoKey).Revoked
+//@   facet C05
+//@   requires k != nil
+//@   ensures [C05:revoked-reads-the-flag] result == (k.revoked == 1)
+
+//@ func (*CryptoKey).SetRevoked
+//@   facet C05
+//@   requires k != nil
+//@   modifies k.revoked
+//@   ensures [C05:set-revoked-writes-the-flag] (k.revoked == 1) == revoked
